@@ -80,7 +80,7 @@ def obligations(tier):
                     for passing in (('pos',) if po else ('pos', 'named')):
                         obs.append({'h': 'validate', 'disp': disp, 'params': [[fa, False, va], [fb, True, vb]], 'passing': passing,
                                     'extra': extra, 'po': po})
-        for extra in ('ctx', 'excluded', 'unknown', 'strict', 'ctxexcl'):
+        for extra in ('ctx', 'excluded', 'unknown', 'strict', 'ctxexcl', 'excldef'):
             for frag, vk, passing in it.product(('integer', 'enum', 'string'), ('int', 'str'), ('pos', 'named')):
                 obs.append({'h': 'validate', 'disp': disp, 'params': [[frag, False, vk]], 'passing': passing, 'extra': extra})
         if tier == 'thorough':
@@ -167,18 +167,21 @@ def h_validate(ob):
         else:
             dep_mid = False
         has_ctx = extra in ('ctx', 'ctxexcl')     # 'ctxexcl': a context parameter AND a parameter removed by the predicate
-        has_excl = extra in ('excluded', 'ctxexcl')
-        validator = jsv_mod.JsonSchemaValidator(exclude_param=(lambda name, ann, default: name == 'dep') if has_excl else None)
+        has_excl = extra in ('excluded', 'ctxexcl', 'excldef')
+        by_default = extra == 'excldef'           # the predicate selects by DEFAULT VALUE (default is None), not by name
+        depsrc = 'dep=None' if by_default else "dep='injected'"
+        depval = None if by_default else 'injected'
+        validator = jsv_mod.JsonSchemaValidator(exclude_param=((lambda name, ann, default: default is None) if by_default else (lambda name, ann, default: name == 'dep')) if has_excl else None)
         log = []
         sig = []
         if has_ctx:
             sig.append('ctx')
         for i, (n, p) in enumerate(zip(names, params)):
             if dep_mid and i == 1:
-                sig.append("dep='injected'")
+                sig.append(depsrc)
             sig.append(n + ("='D'" if p[1] else ''))
-        if has_excl and "dep='injected'" not in sig:
-            sig.append("dep='injected'")
+        if has_excl and depsrc not in sig:
+            sig.append(depsrc)
         allnames = [s.split('=')[0] for s in sig]
         kw = 'async def' if is_async else 'def'
         ns = {'log': log}
@@ -257,7 +260,7 @@ def h_validate(ob):
         if 'error' in rdoc:
             raise Violation('conforming-call-refused:' + str(rdoc['error'].get('code')), (schema, sig, wire_params, rdoc))
         byname = {n: (v[1] if n in provided else 'D') for n, v in zip(names, vals)}
-        want = [CTX if a == 'ctx' else ('injected' if a == 'dep' else byname[a]) for a in allnames]
+        want = [CTX if a == 'ctx' else (depval if a == 'dep' else byname[a]) for a in allnames]
         if len(log) != 1 or not same_json(log[0], want):
             raise Violation('arguments-changed-or-not-executed-once', (schema, wire_params, log, want))
         if not same_json(rdoc.get('result'), want):
